@@ -13,7 +13,11 @@ META = dict(
           "number of non-exact parameters, filter on the first two parameters, swallowed cast errors, the const/non-const tie-break). The concrete cast "
           "relation is a specification (actual type or registered base-class conversion, constness, ownership for shared_ptr, Boxed_Value/Boxed_Number "
           "catch-alls) compared exhaustively with the real boxed_cast over 25 value kinds x 26 parameter forms, and the whole model is compared with the "
-          "real engine on generated overload sets x orders x argument tuples (each C++ function logs what it received)."),
+          "real engine on generated overload sets x orders x argument tuples (each C++ function logs what it received). bind: `Model/Bind.lean` transliterates the two "
+          "loops of Bound_Function::build_param_list; for every pattern of stored values and placeholders and every argument list they compute the specification "
+          "[bind_loops_are_the_specification], under which a stored value reaches the parameter it was bound to, the call's arguments reach the placeholders' "
+          "parameters in order, and the callee receives as many values as bind was given [bind_stored_values_stay, bind_call_arguments_in_order, bind_arity]; tied "
+          "to the code by running the real bind over EVERY pattern of up to 4 (thorough: 5) parameters x every number of call arguments x two parameter typings."),
     note=("Trusted: Lean kernel, harness/dispatch.cpp (catalogue of 38 C++ functions and 25 value kinds; the post-sort overload order is read from the "
           "engine, function_less_than is not modelled), Spec/Cast.lean. Catalogue functions never throw bad_boxed_cast themselves (dispatch() would treat "
           "that as 'try the next overload'); std::function parameters, variadic functions and dynamic (script) overloads with guards are not in the catalogue."),
@@ -84,6 +88,21 @@ def run(ctx):
     for l, o in double_entry[:3]:
         found += 1
         ctx.violation("input", {"mode": "dispatch", "case": l, "observed": o, "expected": "a call enters exactly one overload exactly once, or none and raises"})
+    # bind: every pattern of stored values / placeholders up to 4 (thorough: 5) parameters x every number of call arguments up to one too many x (all int | int/string)
+    import itertools
+    bcases = []
+    for L in range(1, 6 if thorough else 5):
+        for pat in itertools.product("b_", repeat=L):
+            holes = pat.count("_")
+            for n in range(0, holes + 2):
+                for mixed in (0, 1):
+                    bcases.append("bind %s %d %d" % ("".join(pat), n, mixed))
+    with ctx.timer("impl"):
+        bout, _ = C.run_harness_resilient(exe, [], bcases, timeout=1500)
+    with ctx.timer("model"):
+        bm = C.run_driver("dispatch", bcases)
+    found += C.compare_streams(ctx, "dispatch", bcases, bm, bout, nontrivial=lambda impl, line: impl.startswith("entered"), bucket=lambda line: "bind")
+    ctx.cov["bind_cases"] = len(bcases)
     ctx.cov["cast_matrix"] = {"kinds": len(KINDS), "params": len(ONE), "exhaustive": True}
     ctx.cov["rule"] = ("exhaustive (value kind x parameter form) cast matrix (%d cells) + seeded (overload subset, registration order, argument tuple) dispatch cases over a "
                        "catalogue of 30 one-parameter and 12 two-parameter C++ functions; non-trivial = a function was entered / a cast succeeded; distinct = distinct case lines" % len(casts))
